@@ -1,5 +1,5 @@
 """C02 - EXDATE/EXRULE remove, RDATE adds: recurrence-set algebra"""
-import time, json, random, os, datetime as D, concurrent.futures as cf
+import re, time, json, random, os, datetime as D, concurrent.futures as cf
 import vlib, rrgen, strmrun
 
 PID = 'C02'
@@ -34,6 +34,27 @@ def split_lines(rnd, vals):
     for c in cuts + [len(vals)]:
         out.append(vals[a:c]); a = c
     return out
+
+def zone_some_lines(rnd, ics):
+    """the same instants, some EXDATE / RDATE lines written as wall-clock times of a zone instead of UTC (lists in different value forms
+    next to one another: what looks ascending as text need not be ascending in time)"""
+    import zoneinfo
+    out = []
+    for l in ics.split('\n'):
+        m = re.match(r'^(EXDATE|RDATE):(.*Z)$', l)
+        if m and rnd.random() < 0.6:
+            zn = rnd.choice(['Europe/Berlin', 'America/New_York', 'Asia/Kolkata', 'Australia/Sydney', 'Pacific/Chatham']); z = zoneinfo.ZoneInfo(zn)
+            vals = []
+            for v in m.group(2).split(','):
+                u = D.datetime.strptime(v, '%Y%m%dT%H%M%SZ').replace(tzinfo=D.timezone.utc)
+                if not (1905 < u.year < 2036): vals = None; break
+                loc = u.astimezone(z)
+                # a wall-clock time that occurs twice (or not at all) has no single meaning: leave the line as it is
+                if loc.replace(fold=0).utcoffset() != loc.replace(fold=1).utcoffset(): vals = None; break
+                vals.append(loc.strftime('%Y%m%dT%H%M%S'))
+            if vals: l = '%s;TZID=%s:%s' % (m.group(1), zn, ','.join(vals))
+        out.append(l)
+    return '\n'.join(out)
 
 def run(tier, seed):
     t0 = time.time()
@@ -105,6 +126,8 @@ def run(tier, seed):
         last = occ[-1]; hz = last[:3]
         exl = split_lines(rnd, ex); rdl = split_lines(rnd, rd)
         ics = rrgen.event_ics('a%d' % k, ds, [rrgen.rule_text(r) for r in rules], rdates=rdl, exdates=exl, exrules=[rrgen.rule_text(r) for r in xrules], dur=dur, dtend=dtend)
+        if timed and 1905 < ds[0] < 2030 and rnd.random() < 0.6:
+            ics = zone_some_lines(rnd, ics)
         cases.append({'uid': 'a%d' % k, 'ds': rrgen.inst(ds), 'rules': [rrgen.spec_rule(r) for r in rules], 'xrules': [rrgen.spec_rule(r) for r in xrules], 'rdates': [rrgen.inst(x) for x in rd], 'exdates': [rrgen.inst(x) for x in ex],
                       'n_exdate_lines': len(exl), 'n_rdate_lines': len(rdl), 'durkind': durkind, 'rtext': ' | '.join(rrgen.rule_text(r) for r in rules), 'xtext': ' | '.join(rrgen.rule_text(r) for r in xrules),
                       'ics': ics, 'maxpop': 600, 'hz': hz, 'mode': rnd.choice('np')})
